@@ -190,6 +190,15 @@ def run_history(case):
         check_invariants(out, sub, cs, d, lmin, tag)
         if out.violations:
             break
+        if case.get("mutate") and i % 2 == 0:
+            # a caller re-weights the grids of the answer it received (the Opticom routines of the library do exactly this
+            # with scheme[i].coefficient = ...); later answers must still be the coefficients of the index set
+            for g in cs.getCombiScheme(do_print=False):
+                g.coefficient = 0.25
+            check_invariants(out, sub, cs, d, lmin, tag + " (after the caller re-weighted the previously returned grid objects)")
+            out.cls("caller-modified-returned-grids")
+            if out.violations:
+                break
     out.nontrivial = d >= 2 and (partial or rejected) and nsucc >= 1
     if partial:
         out.cls("partial-refinement")
@@ -252,7 +261,7 @@ def history_strategy(tier):
                 ops.append([k, draw(st.sampled_from([0, 0, 0, 1, 2, 3])), draw(st.integers(0, 3))])
             else:
                 ops.append([k])
-        return dict(d=d, lmin=lmin, lmax=lmax, ops=ops)
+        return dict(d=d, lmin=lmin, lmax=lmax, ops=ops, mutate=draw(st.booleans()))
     return s()
 
 
